@@ -492,7 +492,7 @@ var orderKeys = map[string][]sortKey{
 	"id desc":     {{"id", true}},
 	"pk":          {{"id", false}}, // clause.OrderByColumn on clause.PrimaryKey
 	"pk desc":     {{"id", true}},
-	"a desc":      {{"a", true}},              // partial
+	"a desc":      {{"a", true}},               // partial
 	"b, a desc":   {{"b", false}, {"a", true}}, // partial
 }
 
@@ -528,6 +528,7 @@ type Case struct {
 	ArrayLen   int    `json:"array_len"`
 	Mode       string `json:"mode"` // all | batch (grid: only Find under key order and FindInBatches)
 	PtrBatch   bool   `json:"ptr_batch"`
+	Prefill    int    `json:"prefill"` // elements the []Rec destination of Find holds beforehand
 }
 
 func (c Case) String() string {
@@ -560,8 +561,23 @@ func (c Case) String() string {
 		parts = append(parts, calls...)
 	}
 	b.WriteString(strings.Join(parts, "."))
-	fmt.Fprintf(&b, " batch=%d array=%d ptrbatch=%v", c.Batch, c.ArrayLen, c.PtrBatch)
+	fmt.Fprintf(&b, " batch=%d array=%d ptrbatch=%v prefill=%d", c.Batch, c.ArrayLen, c.PtrBatch, c.Prefill)
 	return b.String()
+}
+
+// sample is the short rendering written to the evidence file (the table is
+// abbreviated to its ids; desc, which is hashed, carries everything).
+func (c Case) sample() string {
+	ids := make([]string, len(c.Rows))
+	for i, r := range c.Rows {
+		ids[i] = strconv.FormatInt(r.ID, 10)
+	}
+	s := c.String()
+	s = s[strings.Index(s, " chain: "):]
+	if len(s) > 300 {
+		s = s[:300] + "..."
+	}
+	return fmt.Sprintf("mode=%s rows=%d ids(insertion order)=[%s]%s", c.Mode, len(c.Rows), strings.Join(ids, " "), s)
 }
 
 // ---- reference ------------------------------------------------------------------------------
@@ -875,10 +891,13 @@ func (k *runner) findPaths() {
 	inl := k.inlineArgs()
 	useInline := len(inl) > 0
 
-	{ // []Rec
+	{ // []Rec, optionally a slice that already holds elements (gorm resets it)
 		var rs []Rec
+		for i := 0; i < k.c.Prefill; i++ {
+			rs = append(rs, Rec{ID: uint(900 + i), A: 9, S: "stale"})
+		}
 		tx := k.chain(ss, useInline).Find(&rs, inl...)
-		k.expect("Find(&[]Rec)", tx, recsToRows(rs), n, true)
+		k.expect(fmt.Sprintf("Find(&[]Rec prefilled with %d)", k.c.Prefill), tx, recsToRows(rs), n, true)
 	}
 	{ // []*Rec
 		var rs []*Rec
@@ -1140,6 +1159,68 @@ func (k *runner) pluckPaths() {
 		check("c", "[]sql.NullInt64", tx, got)
 	}
 	{
+		var v []interface{}
+		tx := k.chain(ps, false).Pluck("d", &v)
+		got := make([]string, len(v))
+		for i, x := range v {
+			n, err := normalize(x)
+			switch y := n.(type) {
+			case nil:
+				got[i] = "NULL"
+			case string:
+				got[i] = strconv.Quote(y)
+			default:
+				got[i] = fmt.Sprintf("%T(%v)", x, x)
+			}
+			if err != nil {
+				got[i] = err.Error()
+			}
+		}
+		check("d", "[]interface{}", tx, got)
+	}
+	// slices of pointers: NULL must arrive as nil. Known finding pluck-pointer-null: gorm
+	// scans into the element itself, so a NULL fails with "converting NULL to ... is
+	// unsupported"; while that is open the two destinations are used only when no
+	// matching row holds NULL in the column.
+	hasNull := func(col string) bool {
+		for _, m := range k.ref.matched {
+			if m.cell(col) == "NULL" {
+				return true
+			}
+		}
+		return false
+	}
+	if harness.OpenClass("C15", "pluck-pointer-null") && hasNull("c") {
+		evid.Excluded("pluck-pointer-null")
+	} else {
+		evid.Class("pluck:pointer-slice-checked")
+		var v []*int64
+		tx := k.chain(ps, false).Pluck("c", &v)
+		got := make([]string, len(v))
+		for i, x := range v {
+			got[i] = "NULL"
+			if x != nil {
+				got[i] = itoa(*x)
+			}
+		}
+		check("c", "[]*int64", tx, got)
+	}
+	if harness.OpenClass("C15", "pluck-pointer-null") && hasNull("d") {
+		evid.Excluded("pluck-pointer-null")
+	} else {
+		evid.Class("pluck:pointer-slice-checked")
+		var v []*string
+		tx := k.chain(ps, false).Pluck("d", &v)
+		got := make([]string, len(v))
+		for i, x := range v {
+			got[i] = "NULL"
+			if x != nil {
+				got[i] = strconv.Quote(*x)
+			}
+		}
+		check("d", "[]*string", tx, got)
+	}
+	{
 		var v []sql.NullString
 		tx := k.chain(ps, false).Pluck("d", &v)
 		got := make([]string, len(v))
@@ -1269,6 +1350,11 @@ func (k *runner) singlePaths() {
 	}
 }
 
+// errRunaway stops a FindInBatches that delivers more rows than the table
+// holds (a cursor that does not advance would otherwise loop for ever and the
+// collected rows would grow without bound).
+var errRunaway = errors.New("c15: more rows delivered than the table holds")
+
 // batchPaths: FindInBatches against Find under primary-key order and the
 // reference. Domain: no ordering of the chain's own.
 func (k *runner) batchPaths() {
@@ -1302,9 +1388,12 @@ func (k *runner) batchPaths() {
 	if k.c.PtrBatch {
 		var dest []*Rec
 		res = k.chain(ss, false).FindInBatches(&dest, k.c.Batch, func(tx *gorm.DB, batch int) error {
+			if len(concat)+len(dest) > len(k.c.Rows) {
+				return errRunaway
+			}
 			for _, p := range dest {
 				if p == nil {
-					return errors.New("harness-visible: nil element in batch")
+					return errors.New("nil element in batch")
 				}
 				concat = append(concat, fromRec(*p))
 			}
@@ -1316,6 +1405,9 @@ func (k *runner) batchPaths() {
 	} else {
 		var dest []Rec
 		res = k.chain(ss, false).FindInBatches(&dest, k.c.Batch, func(tx *gorm.DB, batch int) error {
+			if len(concat)+len(dest) > len(k.c.Rows) {
+				return errRunaway
+			}
 			for _, r := range dest {
 				concat = append(concat, fromRec(r)) // copies: gorm reuses the slice
 			}
@@ -1326,6 +1418,11 @@ func (k *runner) batchPaths() {
 		})
 	}
 	path := fmt.Sprintf("FindInBatches(batch=%d)", k.c.Batch)
+	if errors.Is(res.Error, errRunaway) {
+		k.failf("%s delivered more rows than the table holds (%d): batches so far %v, rows so far %s, Find under key order returns %s",
+			path, len(k.c.Rows), sizes, rowsString(concat), rowsString(want))
+		return
+	}
 	if res.Error != nil {
 		k.failf("%s: unexpected error %v (batches so far %v)", path, res.Error, sizes)
 		return
@@ -1519,7 +1616,7 @@ func runCase(t interface{ Fatalf(string, ...interface{}) }, c Case) {
 	desc := c.String()
 	evid.Journal(desc)
 	nt, cl := classify(c, newReference(c))
-	evid.Case(desc, nt, nil, cl...)
+	evid.Case(desc, nt, c.sample(), cl...)
 	msg, herr := checkCase(c)
 	if herr != nil {
 		t.Fatalf("harness: cannot prepare the table: %v, case: %s", herr, desc)
@@ -1806,6 +1903,7 @@ func genCase(rt *rapid.T) Case {
 	c.Batch = rapid.IntRange(1, 8).Draw(rt, "batch")
 	c.ArrayLen = rapid.SampledFrom([]int{0, 1, 2, 3, 5, 8, 13, 26}).Draw(rt, "array-len")
 	c.PtrBatch = rapid.Bool().Draw(rt, "ptr-batch")
+	c.Prefill = rapid.SampledFrom([]int{0, 0, 1, 3}).Draw(rt, "prefill")
 	return c
 }
 
@@ -1838,5 +1936,48 @@ func TestC15Model(t *testing.T) {
 		if r.limit != x.limit || r.offset != x.offset {
 			t.Errorf("calls %v: model says limit=%d offset=%d, want %d/%d", x.calls, r.limit, r.offset, x.limit, x.offset)
 		}
+	}
+}
+
+// ---- witnesses of listed findings (plain tests, no generator) ---------------------------------
+
+// Pluck of a nullable column into a slice of pointers: a NULL must arrive as a
+// nil element (as it does for a *int field of a struct destination). gorm
+// scans into the pointed-to element instead and fails with "converting NULL to
+// int64 is unsupported", handing back a pointer to 0.
+func TestC15WitnessPluckPointerNull(t *testing.T) {
+	one, x := int64(1), "x"
+	c := Case{Rows: []Row{{ID: 1, A: 1, S: "a"}, {ID: 2, A: 2, S: "b", C: &one, D: &x}}, Order: "id", Source: "model", Batch: 1, Mode: "all"}
+	d := testdb.Open(testdb.Options{})
+	defer d.Close()
+	if err := insertRows(d, c.Rows); err != nil {
+		t.Fatalf("harness: %v", err)
+	}
+	var viaStruct []Rec
+	if err := d.Order("id").Find(&viaStruct).Error; err != nil || len(viaStruct) != 2 || viaStruct[0].C != nil || viaStruct[1].C == nil {
+		t.Fatalf("harness: Find into structs does not show NULL,1 for column c: %v %v", viaStruct, err)
+	}
+	var cs []*int64
+	tx := d.Model(&Rec{}).Order("id").Pluck("c", &cs)
+	if tx.Error != nil {
+		t.Errorf("C15 violated: Pluck(\"c\", &[]*int64) over values NULL,1: unexpected error %v", tx.Error)
+	}
+	if len(cs) != 2 || cs[0] != nil || cs[1] == nil || *cs[1] != 1 {
+		got := make([]string, len(cs))
+		for i, p := range cs {
+			got[i] = "nil"
+			if p != nil {
+				got[i] = strconv.FormatInt(*p, 10)
+			}
+		}
+		t.Errorf("C15 violated: Pluck(\"c\", &[]*int64) over values NULL,1 returned %v, want [nil 1]", got)
+	}
+	var ds []*string
+	tx = d.Model(&Rec{}).Order("id").Pluck("d", &ds)
+	if tx.Error != nil {
+		t.Errorf("C15 violated: Pluck(\"d\", &[]*string) over values NULL,\"x\": unexpected error %v", tx.Error)
+	}
+	if len(ds) != 2 || ds[0] != nil || ds[1] == nil || *ds[1] != "x" {
+		t.Errorf("C15 violated: Pluck(\"d\", &[]*string) over values NULL,\"x\" did not return [nil \"x\"]")
 	}
 }
